@@ -229,8 +229,7 @@ def abs_minmax(C, is_min, arg, st, fr):
             src, fn = L, (lambda t: t)
         else:
             raise Unsupported('min/max over %s elements' % L.ek)
-    if ex.instance == 'guarded' and L.ek == 'val':
-        raise Unsupported('min/max with tolerant comparison')
+    tolerant = ex.instance == 'guarded' and L.ek == 'val'
 
     def nonempty(s):
         r = fresh_int('min' if is_min else 'max') if not (L.ek == 'val' and ex.instance == 'real') else fresh_real('m')
@@ -241,6 +240,12 @@ def abs_minmax(C, is_min, arg, st, fr):
             s.assume(f(w))
         fact = (lambda t: z3.Implies(src.mem(t), r <= fn(t))) if is_min else \
                (lambda t: z3.Implies(src.mem(t), r >= fn(t)))
+        if tolerant:
+            # min/max under the guarded classes' tolerant (non-transitive) comparison: all that is claimed is that
+            # the result is the value of a member
+            if src.ek.startswith('ref:'):
+                s.note_ref(src.ek[4:], w)
+            return ex.ok(C.wrap(L.ek, r), s)
         if src.ek.startswith('ref:'):
             s.facts.append((src.ek[4:], fact))
             s.note_ref(src.ek[4:], w)
@@ -439,6 +444,8 @@ class Writes:
         self.locals = {}        # (fid, name) -> sample SV after
         self.cattr = set()
         self.ghost = set()
+        self.init = {}          # heap key first touched inside the loop -> its initial array (deterministic H0_ name)
+        self.gsample = {}       # ghost key first touched inside the loop -> a sample value (for its kind)
 
     def merge(self, other):
         n0 = (len(self.heap), len(self.locals), len(self.cattr), len(self.ghost),
@@ -455,6 +462,8 @@ class Writes:
                         if not any((t is u) or (t is not ELEM and u is not ELEM and t.eq(u)) for u in self.at[k]):
                             self.at[k].append(t)
         self.heap |= other.heap
+        self.init.update(other.init)
+        self.gsample.update(other.gsample)
         self.locals.update(other.locals)
         self.cattr |= other.cattr
         self.ghost |= other.ghost
@@ -462,16 +471,25 @@ class Writes:
                       sum(len(v) if v is not None else -1 for v in self.at.values()))
 
 
+def initial_array(k, sort):
+    "the initial array of heap key k under the deterministic naming of Calls.heap_array"
+    cname, field = k
+    tagn = '%s_%s' % (cname.replace('.', '_'), field[:-1] + '_none' if field.endswith('?') else field)
+    return z3.Const('H0_' + tagn, sort)
+
+
 def diff_state(pre, post, live_fids, havoc_names=None, elem_term=None):
     w = Writes()
     for k, a in post.heap.items():
         o = pre.heap.get(k)
         if o is None:
-            # first touched inside the loop: written only if it is no longer the initial array
-            if not (z3.is_const(a) and a.decl().name().startswith('H0_')):
-                w.heap.add(k)
-                w.at[k] = None
-        elif not a.eq(o):
+            # first touched inside the loop: written only if it is no longer the initial array.  The initial array has
+            # a deterministic name, so it is the array every later first touch would see: the loop head must havoc *it*
+            if z3.is_const(a) and a.decl().name().startswith('H0_'):
+                continue
+            o = initial_array(k, a.sort())
+            w.init[k] = o
+        if not a.eq(o):
             w.heap.add(k)
             idx = store_indices(a, o)
             if idx is not None and havoc_names is not None:
@@ -505,6 +523,7 @@ def diff_state(pre, post, live_fids, havoc_names=None, elem_term=None):
                 # first touched inside the loop: a write only if it is no longer the initial symbol
                 if not (hasattr(v, 't') and z3.is_const(v.t) and v.t.decl().name() == 'g0_' + k[2:]):
                     w.ghost.add(k)
+                    w.gsample[k] = v
             elif not same_sv(o, v):
                 w.ghost.add(k)
     for lid, items in post.lists.items():
@@ -534,6 +553,8 @@ def havoc_state(C, st, W, tag, visited=None, consts=None):
         return n
     for k in W.heap:
         old = s.heap.get(k)
+        if old is None and k in W.init:
+            old = W.init[k]     # first touched inside the loop: materialise the initial array, then havoc it like any other
         if old is not None:
             at = W.at.get(k)
             if at is not None and (visited is not None or not any(t is ELEM for t in at)):
@@ -585,6 +606,8 @@ def havoc_state(C, st, W, tag, visited=None, consts=None):
             s.cattr[k] = fresh_like(C, cur, k[1])
     for k in W.ghost:
         cur = s.ghost.get(k)
+        if cur is None:
+            cur = W.gsample.get(k)      # first touched inside the loop: havoc it all the same (else it would read as initial)
         if cur is not None:
             s.ghost[k] = fresh_like(C, cur, k[2:])
     return s
@@ -931,10 +954,12 @@ def cut_loop(C, kind, s, st, fr, L=None):
     if unode is not None:
         for idx, (lab, _) in enumerate(user_invs(pre, z3.IntVal(0))):
             user.append((lab, lambda st_, it, idx=idx: user_invs(st_, it)[idx][1]))
+
     # ---- 1. what does the body write?
     W = discover_writes(C, run_body, lambda w: make_head(w, user), pre, fr, i, elem_term)
     if elem_term is not None:
         consts.update(elem_constants(C, W, run_body, make_head, elem_term))
+
     # ---- 2. candidate invariants
     cands = counter_candidates(C, W, pre, None)
     hk = ex.hooks.get('loop_candidates')
@@ -977,6 +1002,7 @@ def cut_loop(C, kind, s, st, fr, L=None):
         alive = keep
         if not dropped:
             break
+
     # ---- 4. the real run
     results = []
     # user invariants: initiation
